@@ -161,8 +161,25 @@ def run(tier, replay=None):
     # ---- 3. S->I -------------------------------------------------------------------------------
     scen_path = os.path.join(wd, "scenarios.ndjson")
     n_abstract = 0
+    replay_trace = None
     if replay:
+        # a saved violation record (scenario of the S->I leg, or the trace of a rejected run), or a scenario file
         scen_path = replay
+        try:
+            rec = json.load(open(replay))
+        except ValueError:
+            rec = None
+        if isinstance(rec, dict) and rec.get("scenario"):
+            scen_path = os.path.join(wd, "replay_scenario.ndjson")
+            with open(scen_path, "w") as f:
+                f.write(json.dumps(rec["scenario"]) + "\n")
+        elif isinstance(rec, dict) and rec.get("run"):
+            replay_trace = os.path.join(wd, "replay_trace.ndjson")
+            with open(replay_trace, "w") as f:
+                f.write(json.dumps(rec["run"]) + "\n")
+            scen_path = None
+        elif isinstance(rec, dict):
+            raise vlib.ToolError("%s holds neither a scenario nor a recorded run" % replay)
     else:
         col = Collector()
         gens = [("gen1.cfg", 1, "AllFramings", "AllSiblings", "AllFaults")]
@@ -204,9 +221,12 @@ def run(tier, replay=None):
                 f.write(json.dumps(concretise(e, i + 1, k)) + "\n")
         vlib.log("%d abstract scenarios, %d concrete scenarios to replay" % (n_abstract, len(chosen)))
 
-    out = vlib.run_harness(bins["replay_exchange"],
-                           ["--threads", "40" if thorough else "32", "--rigs", "6" if thorough else "4"],
-                           stdin_path=scen_path, timeout=3000)
+    if scen_path is None:
+        out = [{"kind": "summary", "requests": 0}]
+    else:
+        out = vlib.run_harness(bins["replay_exchange"],
+                               ["--threads", "40" if thorough else "32", "--rigs", "6" if thorough else "4"],
+                               stdin_path=scen_path, timeout=3000)
     summ = [o for o in out if o.get("kind") == "summary"]
     if not summ:
         raise vlib.ToolError("replay_exchange produced no summary")
@@ -290,9 +310,14 @@ def run(tier, replay=None):
                           "time_to_end_ms": [x.get("t_end_ms") for x in o.get("obs", [])]}], 1)
 
     # ---- 4. I->S ---------------------------------------------------------------------------------
+    if replay and not replay_trace:
+        rep.cov["rule"] = "replay of one saved scenario"
+        rep.finish()
     n_runs = 400 if thorough else 120
     trace = os.path.join(wd, "trace.ndjson")
-    dout = vlib.run_harness(bins["drive_exchange"], ["--seed", str(vlib.seed()), "--runs", str(n_runs), "--out", trace,
+    if replay_trace:
+        n_runs = 0
+    dout = [{"kind": "summary", "runs": 1, "distinct": 1}] if replay_trace else vlib.run_harness(bins["drive_exchange"], ["--seed", str(vlib.seed()), "--runs", str(n_runs), "--out", trace,
                                                      "--threads", "32", "--rigs", "4"], timeout=3000)
     dsum = [o for o in dout if o.get("kind") == "summary"]
     if not dsum:
@@ -307,12 +332,14 @@ def run(tier, replay=None):
                 "  Framings = {\"cl\"}\n  Siblings = {}\n  Faults = {}\n  Timings = {\"bf\"}\n  Deviations = %s\n  Emit = FALSE\n"
                 "INVARIANTS TypeOK P_C02_StatusMatchesCause P_C02_NoTruncation P_C02_AnsweredUnlessStarted\n"
                 "CONSTRAINT Track\nPOSTCONDITION TraceAccepted\nCHECK_DEADLOCK FALSE\n" % tla_set(devs))
+    if replay_trace:
+        trace = replay_trace
     tv = vlib.tlc_trace("Trace_HttpExchange", tcfg, PID, trace, timeout=3000 if thorough else 900)
     rep.add_tlc(tv)
     # a rejected run is executed again (same script, 3 times, alone); rejected again -> violation, otherwise the
     # run is set aside as unreproduced and the rest of the trace is validated (at most 4 times)
     dropped = 0
-    while not tv["accepted"] and not tv.get("violated") and dropped < 4:
+    while not tv["accepted"] and not tv.get("violated") and dropped < 4 and not replay_trace:
         bad = first_unmatched(trace, tv.get("consumed"))
         if not bad.get("run"):
             break
@@ -345,7 +372,7 @@ def run(tier, replay=None):
                       {"trace": trace, "consumed": tv.get("consumed"), "run": bad.get("run_events"), "tlc": tv["out"][-3000:]},
                       name="trace_rejected.json")
     # canary: flip one observed status; the trace must be rejected
-    if tv["accepted"]:
+    if tv["accepted"] and not replay_trace:
         canary = os.path.join(wd, "canary.ndjson")
         if make_canary(trace, canary, rng):
             cv = vlib.tlc_trace("Trace_HttpExchange", tcfg, PID, canary, timeout=900)
